@@ -226,6 +226,69 @@ def work(chunk):
     return acc
 
 
+# ---------------------------------------------------------------------------------------------
+# the configuration in force is the one at call time: an object whose method / order / n was assigned after
+# construction must evaluate f exactly where a freshly built object of the final configuration does
+
+def setter_cases():
+    out = []
+    for cls in ('Derivative', 'Gradient', 'Jacobian', 'Hessdiag'):
+        # (the default step generator is chosen at construction: real-step and complex-step objects differ in it, so
+        # only assignments among the real-step methods are comparable with a freshly built object)
+        ms = ['central', 'forward', 'backward']
+        for m0 in ms:
+            for m1 in ms:
+                if m0 == m1:
+                    continue
+                out.append((cls, (m0, 1 if cls != 'Hessdiag' else 2, 2), (m1, 1 if cls != 'Hessdiag' else 2, 2)))
+        out.append((cls, ('complex', 1 if cls != 'Hessdiag' else 2, 4), ('complex', 1 if cls != 'Hessdiag' else 2, 2)))
+        out.append((cls, ('central', 1 if cls != 'Hessdiag' else 2, 2), ('central', 1 if cls != 'Hessdiag' else 2, 4)))
+    for n0, n1 in ((1, 2), (2, 1), (3, 2), (2, 5)):
+        for m in ('central', 'forward', 'backward', 'complex'):
+            out.append(('Derivative', (m, n0, 2), (m, n1, 2)))
+    return out
+
+
+def work_setters(chunk):
+    import warnings
+    acc = fw.Acc()
+    for cls, cfg0, cfg1 in chunk:
+        kind = {'Derivative': 'elementwise', 'Jacobian': 'vector'}.get(cls, 'scalarfun')
+        x = make_x('a', 1 if cls == 'Derivative' else 2)
+        traces = []
+        for mode in ('set', 'fresh'):
+            fw.fresh_library_state()
+            rec = Recorder(kind)
+            with warnings.catch_warnings():
+                warnings.simplefilter('ignore')
+                try:
+                    if mode == 'fresh':
+                        obj = build(cls, cfg1[0], cfg1[1], cfg1[2], ('default', {}), rec)
+                    else:
+                        obj = build(cls, cfg0[0], cfg0[1], cfg0[2], ('default', {}), rec)
+                        if cfg1[0] != cfg0[0]:
+                            obj.method = cfg1[0]
+                        if cfg1[2] != cfg0[2]:
+                            obj.order = cfg1[2]
+                        if cfg1[1] != cfg0[1]:
+                            obj.n = cfg1[1]
+                    obj(x)
+                    traces.append([(a.tobytes(), None if b is None else b.tobytes()) for a, b in rec.args])
+                except Exception as e:      # noqa: BLE001
+                    traces.append(('raised', type(e).__name__))
+        same = traces[0] == traces[1]
+        acc.case(('setter', cls, cfg0, cfg1), nontrivial=True, cell='setter/%s' % cls, outcome=same)
+        if not same:
+            acc.violation('C05:%s:%s:evaluation-points-after-attribute-assignment' % (cls, cfg1[0]),
+                          dict(kind='setter', cls=cls, built=list(cfg0), assigned=list(cfg1)),
+                          '%s built with (method, n, order) = %r and then assigned %r evaluates f at other points than a '
+                          'freshly built %r object (%s evaluations against %s)'
+                          % (cls, cfg0, cfg1, cfg1, len(traces[0]) if isinstance(traces[0], list) else traces[0],
+                             len(traces[1]) if isinstance(traces[1], list) else traces[1]), rank=1)
+    fw.fresh_library_state()
+    return acc
+
+
 def enumerate_cases(ctx):
     cfgs = configs(ctx)
     gens = generators(ctx)
@@ -249,9 +312,10 @@ def enumerate_cases(ctx):
 def run(ctx):
     cases = enumerate_cases(ctx)
     acc = ctx.pmap(work, cases)
+    acc.merge(ctx.pmap(work_setters, setter_cases(), chunk=4))
     for c in cases[:3] + cases[len(cases) // 2:len(cases) // 2 + 3]:
         acc.sample({'cfg': c[0], 'gen': c[1], 'dim': c[2], 'x': make_x(c[3], c[2])})
-    cells = ['%s/%s' % (cls, m) for cls in CLASSES for m in methods_of(cls)]
+    cells = ['%s/%s' % (cls, m) for cls in CLASSES for m in methods_of(cls)] + ['setter/Derivative', 'setter/Jacobian']
     rule = ('full product (class, method, n, order) x generator option vectors with <= %d deviations '
             'from the defaults (+ default, scalar steps) x dimension x x-pool; every argument passed '
             'to the recording user function is checked against exact admissibility predicates; '
@@ -266,6 +330,10 @@ def run(ctx):
 
 def replay(case):
     fw.setup_paths()
+    if case.get('kind') == 'setter':
+        a = work_setters([(case['cls'], tuple(case['built']), tuple(case['assigned']))])
+        bad = [r['detail'] for k, (n, recs) in a.viol.items() for r in recs]
+        return not bad, '%r -> %s' % (case, bad or 'same evaluation points as a freshly built object')
     cfg = tuple(case['cfg'])
     gen = (case['gen'][0], case['gen'][1])
     c = (cfg, gen, case['dim'], case['x'])
